@@ -6,38 +6,38 @@ sys.path.insert(0, HERE)
 from vlib import registry
 
 LEVEL = {
- "C01": ("bounded model checking of every layer of the decoder, the serializers and the common view: CBMC decides absence of panics, index/arithmetic failures, unwinding-bound overruns and (no recursive cycle being reachable) stack growth, for all inputs inside the per-harness bounds and arbitrary small cache states; JSON clause not covered",
-         "layered: kernels for every declared length; V9/IPFIX set, record, packet layers with the layer below replaced by models exact on the harness domain; recursion-free call graph checked by CBMC's recursion unwinding assertions"),
+ "C01": ("bounded model checking of the decided layers (kernels incl. value serializers, V5/V7 parse / export / common view, V9 and IPFIX set, packet and parse_bytes layers, small V9 data flowsets): CBMC decides absence of panics, index/arithmetic failures, unwinding-bound overruns and (no recursive cycle being reachable) stack growth, for all inputs inside the per-harness bounds and arbitrary small cache states; JSON clause not covered",
+         "layered: kernels for every declared length; V9/IPFIX set, record, packet layers with the layer below replaced by models exact on the harness domain; recursion-free call graph checked by CBMC's recursion unwinding assertions in the code those harnesses reach; NOT reached by a registered harness: the IPFIX data-record loop, the packet-level serializers and the V9/IPFIX common view (tier deep, DESIGN.md section 8)"),
  "C02": ("bounded model checking: parse_bytes equals a reference left-to-right decomposition on chains of header-only packets of every version mix in the shape catalogue (symbolic allowed set, symbolic contents, truncations, stray bytes, unknown versions); V5/V7/V9/IPFIX consumed length equals the header-implied wire length",
          "packet chains are shapes with written version/count bytes; per-version consumed length decided in the fixed/P layers"),
  "C03": ("bounded model checking of V5::parse / V7::parse / ProtocolTypes::from on the compiled code: every header/record field at its Cisco offset for all values and counts <= 2, every cut point for <= 1 record, all 256 protocol numbers",
          "Cisco offsets and the IANA table are transcribed by hand into the harness; counts > 2 run the same loop body and are outside the claim"),
- "C04": ("bounded model checking, layer by layer: kernels for all field data types x every declared length x all values; template / options-template flowsets as sent (shape catalogue); data flowsets split into floor(body/size) records with values at the right offsets and padding; packet loop; end-to-end template-then-data history",
-         "composition of layers is by hand (each premise solver-checked); sizes <= 3 records/fields/flowsets"),
- "C05": ("bounded model checking, layer by layer: kernels; IPFIX template / options-template sets incl. enterprise specifiers; data sets with fixed and variable-length fields (1- and 3-byte prefix); message loop with length window; end-to-end history",
-         "known findings (multi-record template sets, sets after an undecodable set, short variable-length records) are witnessed and excluded from the remainder harnesses"),
- "C06": ("bounded model checking from an arbitrary small cache state: template flowsets/sets overwrite exactly the contained complete records (last wins, other ids untouched), data/unknown/truncated sets leave caches unchanged; end-to-end: tail of a buffer decoded by the same parser, split into calls gives the same result, second parser / other protocol never sees a template",
-         "cache pre-state: one symbolic entry (plus one options template); histories of 2 packets"),
- "C07": ("bounded model checking: an id known to neither cache never reaches a data decoder (decoder models assert it), V9 packet => Err, IPFIX set omitted, caches unchanged; end-to-end history with defined / undefined id",
+ "C04": ("bounded model checking, layer by layer: kernels for all field data types x every declared length x all values; template / options-template flowsets as sent, from a symbolic cached entry of one or two fields (shape catalogue); data flowsets: one field x 3 records with padding, zero-size templates; packet loop with the set layer modelled; the V9Parser::parse entry point with the real decoders on packets without decodable data",
+         "composition of layers is by hand (each premise solver-checked); sizes <= 3 records/fields/flowsets; multi-field data records and end-to-end template-then-data histories through the real data decoder did not reach a verdict (tier deep, DESIGN.md section 8)"),
+ "C05": ("bounded model checking, layer by layer: kernels; IPFIX template / options-template sets incl. enterprise specifiers, from a symbolic cached entry; message loop with length window (set layer modelled); the IPFixParser::parse entry point with the real decoders on messages without decodable data",
+         "the IPFIX data-record loop (record splitting, variable-length prefixes) is NOT decided: ipfix::Data::parse exhausts 30 GB in CBMC even for 2 records x 1 field (tier deep, DESIGN.md section 8); known findings (multi-record template sets, sets after an undecodable set) are witnessed and excluded from the remainder harnesses"),
+ "C06": ("bounded model checking from an arbitrary small cache state (one symbolic template of one or two fields and/or one options template): template flowsets/sets overwrite exactly the contained complete records (last wins, other ids untouched, same-shape redefinitions included), data/unknown/truncated sets and V5/V7/unknown/disallowed packets leave caches unchanged; allow-list narrowed between calls",
+         "cache pre-state: one symbolic entry per cache; cross-packet histories through the real data decoders (same buffer vs split calls, second parser) did not reach a verdict (tier deep); what is decided across packets is the parse_bytes chaining on header-only packets (W) and per-packet cache updates (S, P)"),
+ "C07": ("bounded model checking: an id known to neither cache never reaches a data decoder (decoder models assert it), V9 packet => Err (also when the defining template follows in the same packet), IPFIX set omitted, caches unchanged (real decoder on a message holding such a set)",
          "same bounds as C06"),
  "C08": ("bounded model checking: to_be_bytes(parse(b)) == b[..consumed] (byte index symbolic) and parse(to_be_bytes(s)) == s for V5 and V7 with 0, 1, 2 records, all field values symbolic",
          "record count written per harness (0,1,2)"),
- "C09": ("bounded model checking: decode with the real decoder then re-export with the real to_be_bytes equals the input for template, options-template, data (with padding) and options-data flowsets; per-kernel same-width re-export for every data type; lossy kernels are witnessed as known findings",
-         "data records use unsigned fields (exact kernel model); other value types are covered at kernel level only"),
- "C10": ("bounded model checking: IPFIX template set (plain specifiers), data set with fixed-length fields re-export equals input; kernels as C09; enterprise-bit and variable-length-prefix losses are witnessed as known findings",
-         "as C09"),
- "C11": ("bounded model checking: parse_bytes on chains equals the per-packet reference decomposition (so concatenation == per-call results) and end-to-end template-then-data histories give identical results chained and split",
-         "chains of <= 3 header-only packets; histories of 2 packets"),
- "C12": ("bounded model checking: for 3 symbolic allowed version numbers and every chain shape, the result is the reference decomposition cut at the first disallowed version, caches untouched; allowed-but-unknown version => UnknownVersion error with the unparsed bytes",
-         "allowed set has <= 3 members (symbolic u16)"),
- "C13": ("bounded model checking: V5/V7 common view for 0..2 records; V9 and IPFIX common view on result structures of parser-faithful shape; flow concatenation over packets with an error element; known deviations (V9 protocol/times None, IPFIX flow per field) witnessed",
-         "V9/IPFIX inputs are structures constrained to the shape the decoder layers are shown to produce"),
+ "C09": ("bounded model checking: per-kernel same-width re-export for every data type (lossy kernels are witnessed as known findings); S layer: the decoded template / options-template structures - padding and counts included - equal what was sent whatever the cache held, i.e. the structure handed to V9::to_be_bytes is right",
+         "V9::to_be_bytes itself at packet level (decode + re-export in one run, or the serializer on a two-flowset structure) did not reach a verdict in CBMC (tier deep, DESIGN.md section 8): the re-export identity is decided per value and per decoded structure, not end to end"),
+ "C10": ("bounded model checking: kernels as C09; S layer: the decoded IPFIX template / options-template structures (own padding, own field_count, enterprise numbers) equal what was sent whatever the cache held",
+         "as C09: IPFix::to_be_bytes at packet level is tier deep; the enterprise-bit and variable-length-prefix losses were confirmed natively and are listed in known_findings.json, their witness harnesses are tier deep"),
+ "C11": ("bounded model checking: parse_bytes on chains of header-only packets equals the per-packet reference decomposition (so concatenation == per-call results, caches untouched); per-version entry points hand back exactly the unconsumed suffix (real decoders); packet loops are self-delimiting (P layer)",
+         "chains of <= 3 header-only packets; template-then-data histories chained vs split through the real data decoders did not reach a verdict (tier deep)"),
+ "C12": ("bounded model checking: for 3 (one harness family: 4) symbolic allowed version numbers and every chain shape, the result is the reference decomposition cut at the first disallowed version, caches untouched; allowed-but-unknown version => UnknownVersion error with the unparsed bytes",
+         "allowed set has <= 3 members (symbolic u16) in the chain shapes, 4 in w_allowed_four_*; the list may be narrowed between calls"),
+ "C13": ("bounded model checking: V5/V7 common view for 0..2 records (version, timestamp, per-record projection in order); address kernels",
+         "the V9 and IPFIX conversions (NetflowCommon::from(&V9/&IPFix)) and the flowsets concatenation helper did not reach a verdict in CBMC (> 600 s of symex on heap structures; tier deep, DESIGN.md section 8) - C13 is decided for V5/V7 only; the known deviations (V9 protocol/times None, IPFIX flow per field) were confirmed natively"),
  "C14": ("bounded model checking: every cut point of V5/V7 packets is an error; V9 flowset / IPFIX message whose declared length exceeds the buffer is an error before anything is cached; W-level: the error is last and carries the truncated packet from its version field",
          "V5/V7 <= 1 record for the all-cut-points harness; V9/IPFIX truncation per id class"),
  "C15": ("bounded model checking with an accounting model of the Rust global allocator (bytes requested, number of requests, largest request): for short buffers whose count / length fields announce far more than is present (V5/V7 count and field-kernel declared length: every 16-bit value; V9/IPFIX field counts, scope/option lengths, flowset and message lengths: extreme values), the largest single heap request is <= 64 KiB, the total requested is <= 64 KiB + 8 x bytes present + 512, and every loop exits within its unwinding bound. ONLY the clause 'no count or length field causes allocation or work for bytes that are not present' is decided",
          "not decided: quadratic growth with the number of packets/sets/records and the multiplicative inflation by zero-length fields (both need sizes far beyond the bounds CBMC reaches), V9 header.count (run did not finish); deallocation is not credited"),
- "C17": ("the harness crate is rebuilt with default-features = false (compile clause decided by rustc); kernels other than Unknown are checked against the same reference as the default build, the Unknown kernel never decodes, and V9/IPFIX data under a template with an unknown field yields no decoded data",
-         "identity with the default build is by passing the same reference model in both configurations, within the kernel/layer bounds"),
+ "C17": ("the harness crate is rebuilt with default-features = false (compile clause decided by rustc); kernels other than Unknown are checked against the same reference as the default build, the Unknown kernel never decodes, and V9 data under a template with an unknown field yields no decoded data",
+         "identity with the default build is by passing the same reference model in both configurations, within the kernel/layer bounds; the IPFIX data path with the feature off is tier deep"),
 }
 
 NA = [
